@@ -14,6 +14,7 @@ RULES = {
     "C06.R4": "moves: QBytes _to_copy keeps the payload dtype and converts the scale only; QBits _to_copy refuses dtype changes, moves payload/zero-point without dtype and rebuilds through create(); detach keeps the class",
     "C06.R5": "flatten/unflatten agreement: key sets, length assertions, constructor argument mapping",
     "C06.R6": "in move/copy handlers the payload never meets arithmetic",
+    "C06.R12": "the fields of an existing quantized tensor are never rebound: the wrapper's size, stride and dtype are fixed when it is constructed, so outside the constructors a store into `_data` / `_scale` / `_zeropoint` is an in-place write that returns the same tensor (`x._f = op(x._f, ...)` in a handler registered for in-place ops only, `x._f.<op>_(...)`, an augmented assignment); a rebinding of the scale in the copy_ handler is judged by C06.R8",
     "C06.R11": "the number of groups per index of the axis is (numel // shape[axis]) // group_size wherever it is computed (rule C14.R8 re-checked): a sub-byte tensor rebuilt from selected groups holds one code per element",
     "C06.R10": "sub-byte tensors: the payload of a QBitsTensor is grouped (and packed), so its shape is not the tensor's - no constructor or factory call of the QBits classes takes its size or stride argument from the payload it passes",
     "C06.R9": "freshly quantized tensors: the quantizers only accept a scale laid out along the axis they record (per-axis: one extent, equal to the base's, on that axis; per-tensor: a 0-dim scale, so the payload keeps the base's shape) - the acceptance guards of C14.R1, plus the 0-dim clause",
@@ -50,6 +51,7 @@ def run(chk):
                 "any tensor of that class taken through __tensor_flatten__ / __tensor_unflatten__ (torch.compile, FakeTensor tracing, state_dict helpers)")
     quantizer_geometry(chk)
     qbits_geometry(chk)
+    field_rebinding_rule(chk)
     if chk.pid == "C06":
         # "exactly one code per element": a sub-byte tensor rebuilt from a selection of its groups holds as many groups per index as the grouping made
         from . import c14 as _c14
@@ -61,6 +63,67 @@ def run(chk):
         c14.run(AliasedCheck(chk, {"C14.R1": "C06.R9"}))
     scalar_scale_clause(chk)
     chk.assume("torch's wrapper-subclass contract: outer size/stride/dtype/device are exactly what _make_wrapper_subclass is given")
+
+
+FIELDS = ("_data", "_scale", "_zeropoint")
+
+
+def field_rebinding_rule(chk, rule="C06.R12"):
+    """No function outside the constructors rebinds a payload / scale field of a quantized tensor to another tensor."""
+    from ..registries import handlers
+    repo = chk.repo
+    hs = handlers(repo)
+    inplace_only = {}
+    copy_handlers = set()
+    for t in ("qbytes", "qbits"):
+        for h in hs[t]:
+            ops = [o.split(".")[1] for o in h.ops]
+            if ops and all(o.endswith("_") for o in ops):
+                inplace_only[id(h.fn)] = positional_params(h.fn)[0]
+            if "aten.copy_" in h.ops:
+                copy_handlers.add(id(h.fn))
+    n = 0
+    for mi in repo.modules.values():
+        if not mi.rel.startswith("optimum/quanto/"):
+            continue
+        for fn in [x for x in ast.walk(mi.tree) if isinstance(x, ast.FunctionDef)]:
+            if fn.name in ("__init__", "__new__"):
+                continue
+            for st in ast.walk(fn):
+                pairs = []
+                if isinstance(st, ast.Assign):
+                    for tg in st.targets:
+                        if isinstance(tg, (ast.Tuple, ast.List)) and isinstance(st.value, (ast.Tuple, ast.List)) and len(tg.elts) == len(st.value.elts):
+                            pairs += list(zip(tg.elts, st.value.elts))
+                        elif isinstance(tg, (ast.Tuple, ast.List)):
+                            pairs += [(e, None) for e in tg.elts]
+                        else:
+                            pairs.append((tg, st.value))
+                elif isinstance(st, ast.AnnAssign) and st.value is not None:
+                    pairs.append((st.target, st.value))
+                elif isinstance(st, ast.Call) and isinstance(st.func, ast.Name) and st.func.id == "setattr" and len(st.args) == 3 and isinstance(st.args[1], ast.Constant) and st.args[1].value in FIELDS:
+                    pairs.append((ast.Attribute(value=st.args[0], attr=st.args[1].value, ctx=ast.Store()), st.args[2]))
+                for tg, val in pairs:
+                    if not (isinstance(tg, ast.Attribute) and tg.attr in FIELDS):
+                        continue
+                    n += 1
+                    site = f"{mi.rel}:{st.lineno}"
+                    fld = U(tg)
+                    in_place = False
+                    if isinstance(val, ast.Call):
+                        f = val.func
+                        if isinstance(f, ast.Name) and inplace_only.get(id(fn)) == f.id and val.args and U(val.args[0]) == fld:
+                            in_place = True  # the in-place aten op of a handler registered for in-place ops only: returns its first argument
+                        if isinstance(f, ast.Attribute) and f.attr.endswith("_") and not f.attr.startswith("_") and U(f.value) == fld:
+                            in_place = True
+                    if in_place:
+                        chk.ok(rule, site, f"{fn.name}: `{fld} = {U(val)[:60]}` is an in-place write returning the same tensor")
+                    elif id(fn) in copy_handlers and tg.attr == "_scale":
+                        chk.ok(rule, site, f"{fn.name}: `{fld} = {U(val)[:60] if val is not None else '...'}` (the scale, in the copy_ handler): judged by C06.R8")
+                    else:
+                        chk.bad(rule, site, fn.name, f"field {tg.attr} rebound", f"NOT: {fn.name} rebinds `{fld}` to `{U(val)[:70] if val is not None else 'an unpacked value'}`: the wrapper keeps the size, stride and dtype it was constructed with, the new tensor need not have them",
+                                "q.mul_(torch.tensor(2.0)) on a float16 tensor rebinding the scale to a float32 product: q reports float16 and dequantizes to float32; q.unsqueeze_(0) adopting the reshaped codes: q reports (4, 6) and holds (1, 4, 6)")
+    chk.floor(rule, n, 2, "stores into the fields of an existing quantized tensor (the copy_ handler has two)")
 
 
 def wrapper_rule(chk):
